@@ -8,7 +8,7 @@
 From GPA Require Import KeyStore KeyKeeperProofs KeyStoreProofs.
 
 (* Every history of the whole system from the empty world -- polls under ANY fault pattern
-   (status / acquire / store / attest), each either completing or dying after ANY number n of
+   (status / acquire / store / attest / transient failure of the local look-up), each either completing or dying after ANY number n of
    low-level events (request reaching the host, file created, ONE BYTE written, rename, ...), host
    rotations in between: whenever the host holds a latch, the local store returns a key of that
    guid which the host issued. *)
@@ -31,9 +31,10 @@ Print Assumptions C08_latch_recoverable_from_any_world.
 
 (* Restart: a fresh process (empty memory) whose host names a recoverable guid reaches "key in
    memory" from the local store, without acquire, store or attest -- whatever the acquire / attest
-   answers would have been. *)
+   answers would have been (provided the look-up itself does not fail transiently; when it does,
+   C08_latch_recoverable_from_any_world still says that nothing recoverable is lost). *)
 Theorem C08_restart_uses_local_key : forall (st : wstate) (f : faults) (d : doc) (g : bytes),
-  f_status f = StatusDoc d -> validate d = true -> disabled d = false ->
+  f_status f = StatusDoc d -> f_local_fail f = false -> validate d = true -> disabled d = false ->
   d_guid d = Some g -> rec st g ->
   ~ In EAcquire (effects_of st kk_init f) /\
   (forall k, ~ In (EStore k) (effects_of st kk_init f)) /\
@@ -87,7 +88,7 @@ Print Assumptions C08_codec_roundtrip.
 (* The local-store contract that C09_converges assumes holds in this closed system: the key in the
    agent's memory is always backed by a readable key file. *)
 Theorem C08_memory_key_is_backed : forall (ss : list sys_step) (f : faults) (d : doc),
-  f_status f = StatusDoc d ->
+  f_status f = StatusDoc d -> f_local_fail f = false ->
   let w := sys_run world0 ss in
   mem_backed (w_mem w) d (answers_of (w_st w) f).
 Proof. exact mem_backed_closed. Qed.
